@@ -13,7 +13,8 @@ ANCHORS = ["solution/canopy_cover.py", "solution/root_development.py", "solution
 RULE = ("random valid configurations over all 37 built-in crops (calendar-day and thermal), "
         "layered custom soils with penetrability 10-90 %, water tables rising through the root "
         "zone, drought / waterlogging / frost / heat episodes; envelope parameters are read from "
-        "that season's crop object at the season's first step; non-trivial = >= 1 season with "
+        "that season's crop object at the season's first step and must equal the configured "
+        "ones (catalogue + constructor arguments); non-trivial = >= 1 season with "
         ">= 30 in-season days and canopy cover > 0.1; distinct = spec digest")
 ASSUMPTIONS = [
     "a negative dHI0 (-9) is AquaCrop's 'not applicable' sentinel and is read as 0 (lenient)",
@@ -28,6 +29,7 @@ FLOORS = {
                  "d_off_season": 10000, "d_hiadj_at_cap": 50},
 }
 E = 1e-12
+STATIC = ("CCx", "Zmin", "Zmax", "HI0", "dHI0", "Tupp", "Tbase")
 
 
 def cases(tier, seed):
@@ -82,6 +84,11 @@ def monitor(spec, res, acc):
     season_days = {}
     seen_cc = {}
     nofy = acc.spec_feats.get("crop_has_no_YldWC", False)
+    # the envelope the user configured: catalogue values of the crop overridden by the
+    # constructor arguments; the model has no business changing these seven parameters
+    conf = dict(common.crop_catalogue().get(spec["crop"]["name"], {}))
+    conf.update(spec["crop"].get("kw", {}))
+    bound = set()
     for s in tr.steps:
         t = s["t"]
         g = s["growth"]
@@ -107,6 +114,18 @@ def monitor(spec, res, acc):
             continue
         cov["in_season_days"] += 1
         season_days[sc] = season_days.get(sc, 0) + 1
+        if sc not in bound:
+            bound.add(sc)
+            cov["envelope_bindings"] += 1
+            diff = {k: (float(cr[k]), float(conf[k])) for k in STATIC if k in conf and k in cr
+                    and float(cr[k]) != float(conf[k])}
+            if diff:
+                acc.add("envelope-differs-from-configuration",
+                        f"step {t}: season {sc} runs with " + ", ".join(f"{k}={a!r} (configured {b!r})" for k, (a, b) in diff.items()),
+                        dict(t=t, season=sc, differing={k: list(v) for k, v in diff.items()}))
+                cr = dict(cr)
+                cr.update({k: conf[k] for k in diff})
+                tr.season_crop[sc] = cr
         cc, ccns = g[GX["canopy_cover"]], g[GX["canopy_cover_ns"]]
         seen_cc[sc] = max(seen_cc.get(sc, 0.0), float(cc) if np.isfinite(cc) else 0.0)
         ccx = float(cr["CCx"])
